@@ -320,8 +320,35 @@ func (e *SpecEnv) selector(n *SSel) Val {
 	return e.fieldOf(b, n.Name)
 }
 
+// ghostOwner returns the named type whose contract declares ghost fields for values of type t
+// (an interface type, or the constraint interface of a type parameter).
+func (c *Ctx) ghostOwner(t types.Type) (*types.Named, *TypeDecl) {
+	if t == nil {
+		return nil, nil
+	}
+	if tp, ok := t.(*types.TypeParam); ok {
+		t = tp.Constraint()
+	}
+	if n, ok := t.(*types.Named); ok {
+		if td := c.typeDecl(n); td != nil {
+			return n, td
+		}
+	}
+	return nil, nil
+}
+
 func (e *SpecEnv) fieldOf(b Val, name string) Val {
 	c := e.c
+	if sc, ok := b.(Scalar); ok {
+		// ghost field of an interface-typed (reference-like) value
+		if n, td := c.ghostOwner(sc.Ty); td != nil {
+			for _, g := range td.Ghost {
+				if g.Name == name {
+					return e.specLoad(c.elemPrefix(n)+"."+name, c.resolveTypeText(g.Type), sc.T, c.idx(0))
+				}
+			}
+		}
+	}
 	switch s := b.(type) {
 	case Struct:
 		st := s.Ty.Underlying().(*types.Struct)
